@@ -1,7 +1,10 @@
 /-
   Driver for C11 / DataParser: runs Gama.DP.step (Model/DataParserRun.lean over the GENERATED tables and handler
   skeletons) on the SAX event lines printed by harness/c11_dataparser.cpp.
-  (also: `pd <kinds> <hex>` = PD.pureData after the extractions `kinds` (d = double, w = word) from the text)
+  (also: `pd <kinds> <hex>` = PD.pureData after the extractions `kinds` (d = double, w = word, i = int, u = size_t) from the text)
+  For every event the driver answers two lines: `R …` = DP.step with the condition bits searched from k (the old tie) and
+  `V …` = DP.cstep on the REAL text (number-format conditions computed, `g3->model != nullptr` true, the other bits searched from k);
+  at `end`: `O …` and `W …` (outcome of DP.crun, with the line of the event that recorded the error).
   Input lines:  start <hexname> <line> <ae> <k> | stop <line> <k> | text <line> <hex> <k> | end
   where k is the kind of the error the implementation first recorded during the event (or -).  The outcomes of
   the data-dependent conditions inside a handler are not observable from outside: the driver takes the first
@@ -11,6 +14,7 @@
 import Gama.Proto
 import Gama.Model.DataParserRun
 import Gama.Model.PureData
+import Gama.Model.DataParserValues
 open Gama Gama.Proto Gama.DP
 
 def unhex (s : String) : Option (List Char) :=
@@ -33,6 +37,8 @@ def tagOf (name : List Char) : Tag :=
 structure DSt where
   st : St := St.init
   lines : Array Nat := #[]
+  /-- the run on the real text (`DP.crun`): state + `text_buffer` -/
+  cs : CSt := CSt.init
 
 /-- number of data-dependent conditions in a skeleton -/
 def nIf : Prog → Nat
@@ -81,36 +87,98 @@ def feed (d : DSt) (line : Nat) (e : Event) (k : String) : DSt × String :=
     let st' := step d.st (withOracle e o)
     ({ st := st', lines := d.lines.push line }, s!"R {st'.state.idx} {kindName d.st st'}")
 
+/-! ### the run on the real text: conditions about number formats are COMPUTED from the text of the `text` lines -/
+
+/-- number of oracle bits a `CProg` can consume -/
+def nOracle : CProg → Nat
+  | .ifData .other a b => 1 + nOracle a + nOracle b
+  | .ifData (.pure _ _ .none _) a b => nOracle a + nOracle b
+  | .ifData (.pure _ _ _ _) a b => 1 + nOracle a + nOracle b
+  | .ifData _ a b => nOracle a + nOracle b
+  | .seq a b | .ifNoAttrs a b | .ifHasAttrs a b | .ifStateErr a b | .ifBlank a b => nOracle a + nOracle b
+  | .scope a => nOracle a
+  | _ => 0
+
+def cprogOf (cs : CSt) : CEvent → CProg
+  | .start t _ _ => cStartProg (stag cs.st.state t)
+  | .stop _ => cEndProg (etag cs.st.state)
+  | .text _ _ => cDataProg (dataH cs.st.state)
+
+def withOracleC (e : CEvent) (o : List Bool) : CEvent :=
+  match e with
+  | .start t ae _ => .start t ae o
+  | .stop _ => .stop o
+  | .text s _ => .text s o
+
+/-- the oracle bits of the conditions that are not computed: the first assignment (`true` first) under which the model, started
+    without a recorded error, records the kind the implementation recorded; the guards `g3->model != nullptr` are `true` -/
+def findOracleC (cs : CSt) (e : CEvent) (k : String) : Option (List Bool) :=
+  let n := min (nOracle (cprogOf cs e)) 12
+  let clean : CSt := { cs with st := { cs.st with err := none } }
+  (oracles n).find? (fun o =>
+    let k' := kindName clean.st (cstep clean (withOracleC e o)).st
+    if cs.st.err.isSome then k' != "data" else k' == k)
+
+/-- `g3->model != nullptr`: true in every state the harness can reach; the search above must not use it to explain a refusal -/
+def modelGuardOnly : CProg → Bool
+  | .ifData (.pure _ _ .modelNonNull _) a b => nOracle a + nOracle b == 0
+  | .seq a b => (modelGuardOnly a && nOracle b == 0) || (nOracle a == 0 && modelGuardOnly b)
+  | .scope a => modelGuardOnly a
+  | _ => false
+
+def feedC (d : DSt) (e : CEvent) (k : String) : DSt × String :=
+  -- a handler whose only oracle bit is the `g3->model != nullptr` guard is run with that bit `true`: its verdict is computed
+  let o? := if modelGuardOnly (cprogOf d.cs e) then some [] else findOracleC d.cs e k
+  match o? with
+  | none => ({ d with cs := cstep d.cs (withOracleC e []) }, "V ? nopath")
+  | some o =>
+    let cs' := cstep d.cs (withOracleC e o)
+    ({ d with cs := cs' }, s!"V {cs'.st.state.idx} {kindName d.cs.st cs'.st}")
+
 def flag? (s : String) : Option Bool := if s == "1" then some true else if s == "0" then some false else none
 
 def stepLine (d : DSt) (line : String) : DSt × String :=
   match tokens line with
   | ["start", name, ln, ae, k] =>
     match unhex name, ln.toNat?, flag? ae with
-    | some nm, some l, some a => feed d l (.start (tagOf nm) a []) k
+    | some nm, some l, some a =>
+      let (d1, r) := feed d l (.start (tagOf nm) a []) k
+      let (d2, v) := feedC d1 (.start (tagOf nm) a []) k
+      (d2, r ++ "\n" ++ v)
     | _, _, _ => (d, "bad-op")
   | ["stop", ln, k] =>
     match ln.toNat? with
-    | some l => feed d l (.stop []) k
+    | some l =>
+      let (d1, r) := feed d l (.stop []) k
+      let (d2, v) := feedC d1 (.stop []) k
+      (d2, r ++ "\n" ++ v)
     | _ => (d, "bad-op")
   | ["text", ln, hx, k] =>
     match ln.toNat?, unhex hx with
-    | some l, some cs => feed d l (.text cs []) k
+    | some l, some cs =>
+      let (d1, r) := feed d l (.text cs []) k
+      let (d2, v) := feedC d1 (.text cs []) k
+      (d2, r ++ "\n" ++ v)
     | _, _ => (d, "bad-op")
   | ["pd", kinds, hx] =>
     -- `pure_data(istr >> …)`: kinds = a string over d (double) / w (word); answer: failbit eofbit before the call, its result
     match unhex hx with
     | some cs =>
-      let xs := kinds.toList.filterMap (fun c => if c == 'd' then some PD.Extraction.double else if c == 'w' then some PD.Extraction.word else none)
+      let xs := kinds.toList.filterMap (fun c => if c == 'd' then some PD.Extraction.double else if c == 'w' then some PD.Extraction.word
+        else if c == 'i' then some PD.Extraction.int else if c == 'u' then some PD.Extraction.size else none)
       let st := xs.foldl (fun st x => x.run st) (PD.Stream.ofText cs)
       let b (x : Bool) := if x then "1" else "0"
       (d, s!"pd {b st.fail}{b st.eof} {b (PD.pureData st)}")
     | none => (d, "bad-op")
   | ["end"] =>
+    let w := match outcome d.cs.st with
+      | .accepted => "W ok"
+      | .refused none => "W parser 0 -1"
+      | .refused (some (i, _)) => s!"W parser {d.lines[i]?.getD 0} -1"
     match outcome d.st with
-    | .accepted => (d, "O ok")
-    | .refused none => (d, "O parser 0 -1")
-    | .refused (some (i, _)) => (d, s!"O parser {d.lines[i]?.getD 0} -1")
+    | .accepted => (d, "O ok\n" ++ w)
+    | .refused none => (d, "O parser 0 -1\n" ++ w)
+    | .refused (some (i, _)) => (d, s!"O parser {d.lines[i]?.getD 0} -1\n" ++ w)
   | _ => (d, "bad-op")
 
 def main : IO Unit := loop stepLine {}
